@@ -3,7 +3,7 @@
    invariant on top of the refinement relation R: no shard is empty. *)
 From Coq Require Import List ZArith Bool Lia Permutation.
 From MV Require Import Store.AMap Store.SetSpec Store.Generic Store.Simple Store.AMapProofs Store.GenericProofs
-  Store.SimpleProofs.
+  Store.SimpleProofs Store.NestedProofs.
 Import ListNotations.
 Open Scope Z_scope.
 
@@ -89,7 +89,11 @@ Section Exact.
   Lemma preds_exact st s : R I elems WF st s -> NE st -> Permutation (g_preds st) (s_preds s).
   Proof.
     intros HR HNE. unfold g_preds. apply NoDup_Permutation.
-    - apply NoDup_app_intro.
+    - apply nodup_app; [exact (r_ck _ _ _ _ _ HR)|exact (r_sk _ _ _ _ _ HR)|].
+      intros p H1 H2.
+      destruct (in_keys_get pred_eqb pred_eqb_spec _ _ H1) as [a Ha].
+      destruct (in_keys_get pred_eqb pred_eqb_spec _ _ H2) as [t Ht].
+      destruct (r_const _ _ _ _ _ HR _ _ Ha) as [Hc _]. destruct (r_shard _ _ _ _ _ HR _ _ Ht) as [Hc' _]. congruence.
     - apply (dedup_nodup pred_eqb pred_eqb_spec).
     - intros p. split; [|apply (preds_cover I elems WF st s HR)].
       intros Hp. unfold s_preds. rewrite (dedup_in pred_eqb pred_eqb_spec). apply in_map_iff.
@@ -99,7 +103,7 @@ Section Exact.
         assert (Hpa : pred_of a = p).
         { subst a. unfold pconst in Hc. apply andb_true_iff in Hc. destruct Hc as [_ Hc]. apply Z.eqb_eq in Hc.
           destruct p as [sy ar]. simpl in *. subst ar. reflexivity. }
-        split; auto. apply (r_mem _ _ _ _ _ HR). unfold Mem. rewrite Hpa, Hc, Ha. discriminate.
+        split; auto. apply (r_mem _ _ _ _ _ HR). unfold Mem. rewrite Hpa, Hc. unfold pget. rewrite Ha. discriminate.
       + destruct (in_keys_get pred_eqb pred_eqb_spec _ _ Hp) as [t Ht].
         pose proof (HNE _ _ Ht) as Hne. destruct (elems t) as [|x l] eqn:Et; [congruence|].
         assert (Hx : In x (elems t)) by (rewrite Et; left; auto).
